@@ -204,11 +204,26 @@ func H_C07_step() {
 // real observe callback at arbitrary moments. At the instant the event reaches
 // the listener every listed copy must have reported >= s under one vbUUID.
 func H_C07_gate() {
-	setMerge(true)
 	K := 3
 	if tierThorough() {
 		K = 4
 	}
+	vC07gate(K, false)
+}
+
+// H_C07_gatectl: the same gate for a control event that carries a sequence
+// number of its own (seqno-advanced: its offset is what the consumer
+// checkpoints) - it waits at the gate like a document event.
+func H_C07_gatectl() {
+	K := 2
+	if tierThorough() {
+		K = 3
+	}
+	vC07gate(K, true)
+}
+
+func vC07gate(K int, control bool) {
+	setMerge(true)
 	g := vNewGocb()
 	cfg := &config.Dcp{}
 	cfg.RollbackMitigation.Interval = 500 * time.Millisecond
@@ -221,7 +236,9 @@ func H_C07_gate() {
 	assume(s > 0)
 	delivered := false
 	sink := func(a models.ListenerArgs) {
-		if _, ok := a.Event.(models.DcpMutation); ok {
+		_, isDoc := a.Event.(models.DcpMutation)
+		_, isAdv := a.Event.(models.DcpSeqNoAdvanced)
+		if isDoc || isAdv {
 			delivered = true
 			assert(G >= s, "delivered only after every listed copy reported a persisted seqno >= s under one vbUUID")
 		}
@@ -240,7 +257,11 @@ func H_C07_gate() {
 	}
 	returned := false
 	spawnEnv(func() {
-		obs.Mutation(gocbcore.DcpMutation{SeqNo: s, VbID: vb, Key: []byte("k")})
+		if control {
+			obs.SeqNoAdvanced(gocbcore.DcpSeqNoAdvanced{SeqNo: s, VbID: vb})
+		} else {
+			obs.Mutation(gocbcore.DcpMutation{SeqNo: s, VbID: vb, Key: []byte("k")})
+		}
 		returned = true
 	})
 	uuids := [2]uint64{nondetU64("uuidA"), nondetU64("uuidB")}
